@@ -31,6 +31,7 @@ def run(ctx):
     spec_fail, lines, refs = [], [], []
     skipped_singular = [0]
     pub = [0]
+    colrep = [0]
     dist = {}
     evals = 0
     nw = 2 if ctx.tier == "quick" else 5
@@ -120,6 +121,22 @@ def run(ctx):
                                       "local energy equals <psi_T|H|phi>/<psi_T|phi>",
                                       {"norb": norb, "nelec": ne, "spin_dependent_h1": spin_dep, "got": str(got), "want": str(want), "tol": TOL[kind]}))
                     break
+            # the theorem's right-hand side (specEnergy2: column replacements) evaluated with the class's OWN overlap function
+            if not ronly:
+                try:
+                    Wa, Wb = wf.complex_walker(rng, norb, ne[0]), wf.complex_walker(rng, norb, ne[1])
+                    ovl = lambda a, b: trials.lib_overlap(kind, trial, wd, jnp.array(a), jnp.array(b))
+                    if abs(ovl(Wa, Wb)) > 0.05 and wf.admissible(ref, sec, Wa, Wb):
+                        want_cr, _ = wf.column_replacement_estimators(ovl, plain, Wa, Wb)
+                        got = trials.lib_energy(kind, trial, ham, wd, jnp.array(Wa), jnp.array(Wb))
+                        evals += 1
+                        colrep[0] += 1
+                        if not wf.close(got, want_cr, 4 * TOL[kind], 4 * TOL[kind]):
+                            spec_fail.append((kind + " (unrestricted entry)", "local energy equals the column-replacement mixed estimator of the class's own overlap (specEnergy2)",
+                                              {"norb": norb, "nelec": ne, "spin_dependent_h1": spin_dep, "got": str(got), "want": str(want_cr), "tol": 4 * TOL[kind],
+                                               "Wa": wf.mat_tokens(Wa), "Wb": wf.mat_tokens(Wb)}))
+                except Exception as ex:
+                    spec_fail.append((kind, "column-replacement estimator can be evaluated", {"norb": norb, "nelec": ne, "error": repr(ex)[:300]}))
             # public route: re-prepared dictionary, batched entry points (one (norb, nelec) per kind and h1 flavour)
             if dist[kind] <= (2 if ctx.tier == "quick" else 99) and not (spin_dep and ronly):
                 f2, n2 = wf.public_rebuild_batch(kind, trial, wd, desc, sec, psi, rng, norb, ne, "energy", TOL[kind], spin_dep=spin_dep)
@@ -186,7 +203,8 @@ def run(ctx):
     ctx.cov["samples"] = [lines[0][:300], json.dumps(dist)]
     ctx.cov["distribution"] = dist
     ctx.cov["skipped"] = {"walkers_with_vanishing_reference_overlap (outside the CI formulas' domain)": skipped_singular[0]}
-    ctx.cov["correspondence"] = {"lean_model_cases": len(refs), "mismatches": len(mism), "spec_evaluations": evals, "fd_convergence_cases": fd_cases, "public_rebuilt_batched_evaluations": pub[0]}
+    ctx.cov["correspondence"] = {"lean_model_cases": len(refs), "mismatches": len(mism), "spec_evaluations": evals, "fd_convergence_cases": fd_cases, "public_rebuilt_batched_evaluations": pub[0],
+                                 "column_replacement_estimator_cases": colrep[0]}
     ctx.assumptions += ["theorem layer covers rhf/uhf (and linear combinations); CI kinds are validated against the Fock-space estimator",
                         "jax.jvp/vjp return derivatives of the traced function (AD kinds)"]
     if mism:
